@@ -49,9 +49,9 @@ func C19(r *core.Report) {
 	slotWalkStopsOnlyBelowRange(r, "C19.R10")
 	r.Floor("C19.R10", 1)
 	r.Floor("C19.R9", 1)
-	r.Floor("C19.R1", 6)
+	r.Floor("C19.R1", 4)
 	r.Floor("C19.R2", 1)
-	r.Floor("C19.R3", 3)
+	r.Floor("C19.R3", 2)
 	r.Floor("C19.R4", 1)
 	r.Floor("C19.R6", 1)
 }
